@@ -111,18 +111,18 @@ CHECKS = {
 # sentences appended to the level texts: what the audit phase (DESIGN.md §12.4) added to each check
 ADDED = {
  "C01": "Stream decoders are also fed by readers delivering 1, 7 and 113 bytes per call; every split function is checked on every prefix of a two-token stream; paths of 17 items of 255 bytes, user records built from icon fields of 0/1/3 bytes and information forks with names of 65,461 and 65,535 bytes are among the objects.",
- "C03": "The sentinel's probe also asks for the client info of every listed user and the file lists of the root and the upload folder; further scenarios: the same flood with 30 pending replies one deviation deeper, junk uploaded under an information-fork side-file name, aliases pointing at themselves. Also: the backlog of 100 pending replies drained under the least favourable schedule must cost a bounded number of scheduling steps and wake-ups per reply; a file list must be answered while another client deletes a file of that folder (directory reads and entry examinations are scheduling points).",
+ "C03": "The sentinel's probe also asks for the client info of every listed user and the file lists of the root and the upload folder; further scenarios: the same flood with 30 pending replies one deviation deeper, junk uploaded under an information-fork side-file name, aliases pointing at themselves. Also: the backlog of 100 pending replies drained under the least favourable schedule must cost a bounded number of scheduling steps and wake-ups per reply; a file list must be answered while another client deletes a file of that folder (directory reads and entry examinations are scheduling points). A forged chat invitation answered by the invited client leaves that client connected.",
  "C04": "The reference is exact password equality (also beyond bcrypt's 72-byte limit); a password P 00 P against the password P is a probe.",
- "C05": "Also: folders below a drop box / upload folder, renames that contain a separator, renames/moves/account renames onto taken names (nothing may be replaced), batched UpdateUser requests mixing entries under different privileges (nothing may be carried out when the request is refused), live sessions of an account edited through SetUser, UpdateUser, rename+edit and rename then SetUser; per-kind forbidden-state oracles; the name announced to others must be the listed name. Also: batch entries that depend on earlier entries of the same request, an account rename onto another account's file name, folder downloads touching a drop box, entries named like fork side files, and under every schedule with at most 1 (thorough 2) deviations a login overlapping an edit of its account ends with the privileges the account holds.",
+ "C05": "Also: folders below a drop box / upload folder, renames that contain a separator, renames/moves/account renames onto taken names (nothing may be replaced), batched UpdateUser requests mixing entries under different privileges (nothing may be carried out when the request is refused), live sessions of an account edited through SetUser, UpdateUser, rename+edit and rename then SetUser; per-kind forbidden-state oracles; the name announced to others must be the listed name. Also: batch entries that depend on earlier entries of the same request, an account rename onto another account's file name, folder downloads touching a drop box, entries named like fork side files, and under every schedule with at most 1 (thorough 2) deviations a login overlapping an edit of its account ends with the privileges the account holds. Batches that edit the requester's own account or create an account with more access are refused before anything is carried out.",
  "C06": "Protection granted through SetUser, UpdateUser and rename+grant while two sessions of the account are connected.",
  "C07": "Also with a requester whose own file root has a non-ASCII name. Also for an account whose own file root does not exist.",
  "C08": "Also for an account with its own file root next to a same-named file in the server root, for a name that only exists as a partial upload (must be refused), and on resume the DATA fork header must announce the bytes that follow. Also when the server's random draw for the next reference number equals one that is waiting.",
  "C09": "A download is attempted after the first cut; a resume request racing the still-draining cut transfer is explored under every schedule with at most 1 (thorough 2) deviations. Every resume attempt must be answered, also when nothing of the file has been stored.",
  "C10": "On resume the item's DATA fork header must announce the remaining bytes; trees include entries with stored information and resource forks. Trees with names that are not ASCII (Mac Roman on the wire, UTF-8 on disk).",
- "C11": "Names containing '.incomplete' in the middle, a folder with a non-ASCII name, an information-fork side file of a partial upload, moving a partial upload, renaming an alias. Also a rename-with-comment onto a taken name (nothing of it may be carried out) and size agreement between list and get-info for a partial upload.",
+ "C11": "Names containing '.incomplete' in the middle, a folder with a non-ASCII name, an information-fork side file of a partial upload, moving a partial upload, renaming an alias. Also a rename-with-comment onto a taken name (nothing of it may be carried out) and size agreement between list and get-info for a partial upload. Also: a file with a 245-byte name (no room for '.incomplete'), operations onto and on the name shown for a partial upload (rename, move, new folder, alias; moving the partial upload itself), renames the file system refuses.",
  "C12": "Histories in which the 16-bit id counter wraps after a member left (the new holder of the id must receive nothing), account edits through UpdateUser and rename, the emote option as a 2- or 4-byte integer. Also histories in which the server's random draw for a chat id is 0 or an id in use.",
- "C13": "Also: agreements without an icon field or with a 1-byte one, requests addressed to an id nobody holds (error reply, requester stays), a login while all 65,535 ids are in use (refused, server not wedged), and under every schedule with at most 1 (thorough 2) deviations the notices about one user reach an observer in the order of the requests. The user list must hold exactly the users who completed login; an administrator's edit of the account of a user who hangs up at the same moment must not leave that user on anybody's list.",
- "C14": "Sizes include server-built fields of 65,536 and 70,000 bytes and a 70,400-byte message board (the stream must still re-frame). Also: a login overlapping the deletion of its account, and requests about a user who leaves at the same moment, are answered exactly once.",
+ "C13": "Also: agreements without an icon field or with a 1-byte one, requests addressed to an id nobody holds (error reply, requester stays), a login while all 65,535 ids are in use (refused, server not wedged), and under every schedule with at most 1 (thorough 2) deviations the notices about one user reach an observer in the order of the requests. The user list must hold exactly the users who completed login; an administrator's edit of the account of a user who hangs up at the same moment must not leave that user on anybody's list. A client that sets its name before agreeing is not announced.",
+ "C14": "Sizes include server-built fields of 65,536 and 70,000 bytes and a 70,400-byte message board (the stream must still re-frame). Also: a login overlapping the deletion of its account, and requests about a user who leaves at the same moment, are answered exactly once. The session of an account deleted during its login does not stay connected; a bystander is still answered after a notice about a departing user was dropped.",
  "C15": "Logins include strings the YAML library does not write back faithfully (a leading line feed; a leading tab followed by a line feed); the stored hash is verified through the server's own Authenticate. Logins with a Mac Roman byte (not valid UTF-8).",
  "C16": "Also a 5-byte access field and the 354 notice after rename-then-SetUser.",
  "C17": "Also ban options sent as 4-byte integers, a connection that shook hands before the ban and logs in during it, a banned address that only shakes hands, a ban whose save fails, two users behind one address banned permanently then temporarily.",
